@@ -303,13 +303,25 @@ def run(tier: str, seed: int) -> int:
         objs = layout.objects()
         all_keys = [k for _, _, _, _, k in objs]
         for skip in ("", "nets", "nets/vms", "nets/vms/images nets", "nets/vms/images", "nets nets/vms nets/vms/images"):
-            for ro in (None, "image1_vm1", "image2_vm1"):
+            # readonly given for one image, for every image of one vm, or for every image (the flag is an image attribute: vms and nets never are readonly)
+            for ro in (None, "image1_vm1", "image2_vm1", "vm1", "vm2", "*"):
                 for op in ("check", "get", "set", "unset"):
                     c2 += 1
                     init = Store({k: {"s1"} for k in all_keys}, all_keys)
                     extra = {"skip_types": skip, "check_mode": "rr"}
-                    if ro:
+                    if ro == "*":
+                        extra["image_readonly"] = "yes"
+                    elif ro:
                         extra[f"image_readonly_{ro}"] = "yes"
+
+                    def is_ro(otype_, oname_):
+                        if not ro or otype_ != "nets/vms/images":
+                            return False
+                        if ro == "*":
+                            return True
+                        if ro.startswith("vm"):
+                            return oname_.split("/")[-2] == ro
+                        return oname_.endswith("/".join(reversed(ro.split("_"))))
                     # address every object with a harmless row (present state, reuse/force)
                     mode = {"check": None, "get": "ri", "set": "ff", "unset": "fi"}[op]
                     addressed = [(sfx, "s1", mode) for (_, _, sfx, _, _) in objs]
@@ -320,14 +332,18 @@ def run(tier: str, seed: int) -> int:
                     for (otype, oname, sfx, level, key) in objs:
                         if otype in skipped_types:
                             continue
-                        if ro and otype == "nets/vms/images" and oname.endswith("/".join(reversed(ro.split("_")))):
+                        if is_ro(otype, oname):
                             continue
                         if op != "check":
                             model_op(model, op, key, "s1", mode, "rr")
                     touched = {c[1] for c in calls}
-                    forbidden = {k for (t, n, _, _, k) in objs if t in skipped_types or (ro and t == "nets/vms/images" and n.endswith("/".join(reversed(ro.split("_")))))}
+                    forbidden = {k for (t, n, _, _, k) in objs if t in skipped_types or is_ro(t, n)}
                     rep.transitions += 1
                     inp = {"op": op, "skip_types": skip, "readonly": ro}
+                    required = {k for (t, n, _, _, k) in objs} - forbidden
+                    if op != "check" and required - touched:
+                        rep.violation(f"{op} with skip_types={skip!r} readonly={ro}: objects {sorted(required - touched)} were addressed and are neither skipped nor readonly "
+                                      f"but the backend was never asked for them", inp, {"part": "skip-missed", "op": op})
                     if touched & forbidden:
                         rep.violation(f"{op} with skip_types={skip!r} readonly={ro}: backend called for skipped objects {sorted(touched & forbidden)}", inp,
                                       {"part": "skip", "op": op})
